@@ -13,7 +13,7 @@ RULE = ("case = (structure tree with <= N nodes over containers list/dict (plain
         "Packer: all sequences to depth D undeduplicated plus breadth-first search deduplicated on the reference "
         "cache-flag state; distinct = distinct (structure, partition, per-event outcome table) hashes; a case is "
         "trivial when the structure holds no tensor slot")
-RULE_ADDED = 'Added later: dictionary variants (OrderedDict, user subclass with attributes, defaultdict) and a mixed-dtype variant (float32 / float64 / complex128 by alias class, values not representable in the narrower dtype). Round 6: shared-storage variant (distinct tensor objects sharing storage, dtype, shape and strides). Round 7: scripted reshape histories (one Packer used before and after the shape of a packed tensor is changed in place by t_(), unsqueeze_() or .data assignment: 4 structures x unique x interface x alias).'
+RULE_ADDED = 'Added later: dictionary variants (OrderedDict, user subclass with attributes, defaultdict) and a mixed-dtype variant (float32 / float64 / complex128 by alias class, values not representable in the narrower dtype). Round 6: shared-storage variant (distinct tensor objects sharing storage, dtype, shape and strides). Round 7: scripted reshape histories (one Packer used before and after the shape of a packed tensor is changed in place by t_(), unsqueeze_() or .data assignment: 4 structures x unique x interface x alias); shared container (a list / dict / object holding a tensor referenced from two places of a list / dict / object, followed by 1 or 2 further tensors).'
 ASSUMPTIONS = [
     "tensor shapes are drawn from {(), (2,), (2,2)} by alias class index; values are small distinct integers",
     "a constructor called before its getter may raise (documented precondition) or return a correct structure",
@@ -182,6 +182,14 @@ def cases(tier, seed):
                     for alias in (False, True):
                         out.append({"search": "reshape", "struct": struct, "u": u, "iface": iface, "op": op,
                                     "alias": alias, "spec": None, "part": None, "nodes": 3, "depth": 6})
+    # a CONTAINER (not a tensor) referenced from two parents, followed by another tensor in traversal order
+    for parent in ("list", "dict", "obj"):
+        for child in ("list", "dict", "obj"):
+            for u in (True, False):
+                for iface in ("l", "f"):
+                    for ntail in (1, 2):
+                        out.append({"search": "shared", "parent": parent, "child": child, "u": u, "iface": iface,
+                                    "ntail": ntail, "spec": None, "part": None, "nodes": 4, "depth": 2})
     # dictionary variants: every structure with <= 3 (quick) / 4 (thorough) nodes that contains a dictionary
     for n in range(2, (4 if tier == "quick" else 5)):
         for spec in _trees(n):
@@ -671,9 +679,95 @@ def run_reshape(cfg):
             "status": "violation" if viol else "ok", "n": nexec[0], "states": 6, "transitions": nexec[0]}
 
 
+def run_shared(cfg):
+    """a container holding one tensor is referenced from two places of the structure and followed by 1 or 2 further
+    tensors: the listing visits the shared tensor once per reference (once in unique mode), and after a
+    construction every LATER slot holds the tensor supplied for its position (the shared slot holds one of the
+    tensors supplied for its references)"""
+    import xitorch
+    from mc.util import V
+    u, iface, ntail = cfg["u"], cfg["iface"], cfg["ntail"]
+    t0 = torch.arange(2, dtype=torch.float64) + 1.0
+    tails = [torch.arange(3, dtype=torch.float64).reshape(3) + 10.0 * (k + 1) for k in range(ntail)]
+    if cfg["child"] == "list":
+        sh = [t0]
+        rd_c = lambda c: c[0]
+    elif cfg["child"] == "dict":
+        sh = {"t": t0}
+        rd_c = lambda c: c["t"]
+    else:
+        sh = Obj()
+        sh.t = t0
+        rd_c = lambda c: c.t
+    items = [sh, sh] + tails
+    if cfg["parent"] == "list":
+        obj = list(items)
+        rd = lambda o: list(o)
+    elif cfg["parent"] == "dict":
+        obj = {"k%d" % i: it for i, it in enumerate(items)}
+        rd = lambda o: [o["k%d" % i] for i in range(len(items))]
+    else:
+        obj = Obj()
+        for i, it in enumerate(items):
+            setattr(obj, "a%d" % i, it)
+        rd = lambda o: [getattr(o, "a%d" % i) for i in range(len(items))]
+    viol = []
+    at = {k: cfg[k] for k in ("parent", "child", "u", "iface", "ntail")}
+
+    def add(f, **d):
+        viol.append(V("shared-container:" + f, dict(d, **at)))
+    P = xitorch.Packer(obj)
+    ref = ([t0] + tails) if u else ([t0, t0] + tails)
+    nexec = 1
+    try:
+        got = P.get_param_tensor_list(unique=u) if iface == "l" else P.get_param_tensor(unique=u)
+    except Exception as e:
+        add("getter-raised:%s" % type(e).__name__)
+        got = None
+    if got is not None:
+        if iface == "l":
+            if len(got) != len(ref) or any(a is not b for a, b in zip(got, ref)):
+                add("getter-list-wrong", n=len(got))
+        else:
+            exp = torch.cat([t.reshape(-1) for t in ref])
+            if got.numel() != exp.numel() or not torch.equal(got.reshape(-1), exp):
+                add("flat-getter-wrong-value")
+    if not viol:
+        new = [torch.full(tuple(t.shape), 100.0 * (i + 1), dtype=t.dtype) + torch.arange(t.numel(), dtype=t.dtype)
+               for i, t in enumerate(ref)]
+        nexec += 1
+        try:
+            res = P.construct_from_tensor_list(list(new), unique=u) if iface == "l" else \
+                P.construct_from_tensor(torch.cat([t.reshape(-1) for t in new]), unique=u)
+        except Exception as e:
+            add("constructor-raised:%s" % type(e).__name__, message=str(e)[:160])
+            res = None
+        if res is not None:
+            parts = rd(res)
+            first_tail = 1 if u else 2
+            for k in range(ntail):
+                g = parts[2 + k]
+                want = new[first_tail + k]
+                if not isinstance(g, torch.Tensor) or tuple(g.shape) != tuple(want.shape) or not torch.equal(g, want):
+                    add("later-slot-holds-other-tensor", slot=2 + k)
+                    break
+            allowed = [new[0]] if u else [new[0], new[1]]
+            for j in (0, 1):
+                g = rd_c(parts[j])
+                if not any(torch.equal(g, a) for a in allowed):
+                    add("shared-slot-holds-none-of-its-tensors", ref=j)
+                    break
+            if rd_c(rd(obj)[0]) is not t0 or any(a is not b for a, b in zip(rd(obj)[2:], tails)):
+                add("original-modified")
+    return {"viol": viol, "obs": {"nviol": len(viol), "cfg": sorted(at.items())},
+            "status": "violation" if viol else "ok", "n": nexec, "states": 3, "transitions": nexec}
+
+
 def run_case(cfg):
     if cfg.get("search") == "reshape":
         return run_reshape(cfg)
+    if cfg.get("search") == "shared":
+        return run_shared(cfg)
     spec, part, depth = cfg["spec"], cfg["part"], cfg["depth"]
     _DVAR[0] = cfg.get("dvar", "dict")
     _DTV[0] = cfg.get("dtv", "f64")
